@@ -22,7 +22,10 @@ RULE = ('every Matrix operation (copy/to_wirevector round trip, + - * scalar* @ 
         'axis reductions); CHAINED operations op2(op1(A..), B) with op1 in {copy, transpose, reversed, '
         'flatten, reshape, getitem block, hstack/vstack/concatenate, put, setitem, bits setter} and op2 in '
         '{+, *, @, **2, dot} are built with all-max values and checked for the documented width and the '
-        'exact value of op2 (so a wrong bits/max_bits on the intermediate shows); HISTORIES: seeded random call '
+        'exact value of op2 (so a wrong bits/max_bits on the intermediate shows); the translator regenerates '
+        'Gen/MatrixRules.v (width rules, constructor, put.get_ix, reshape arithmetic, max_bits arguments) and '
+        'Gen/MatrixKeys.v (the whole key normalisation of __getitem__/__setitem__ for all four int/slice '
+        'combinations, the single-int key, and getitem\'s block extraction) from the current source; HISTORIES: seeded random call '
         'sequences (4-9 steps quick, 4-12 thorough; 140 / 900 sequences) on a pool of 1-3 Input-driven matrices '
         'plus everything the calls create: to_wirevector probes, copy, transpose, reversed, block slices, '
         'reshape/flatten, ** n, + - * @, single- and multi-argument hstack/vstack/concatenate, axis reductions, '
@@ -52,7 +55,13 @@ TRUSTED = ['py/checks/C19.py spec(): nested-list integer arithmetic (numpy-free)
            'Lib/Matrix.v wv_add/wv_sub/wv_mul/fma: value and width of the WireVector operators used by matrix.py '
            '(documented op table; fma = (a*b+c) mod 2^(max(wa+wb-1,wc)+1), tied by simulation)',
            'Lib/MatrixProofs.v wfx/mrange/sumZ/dot_spec/inner_spec/mat_pow_spec/is_max/is_min/first_index/'
-           'put_last/orient/stackable_h/stackable_v: the vocabulary the theorem statements are written in']
+           'put_last/orient/stackable_h/stackable_v: the vocabulary the theorem statements are written in',
+           'py/genfrag_C19.py: besides expressions, a symbolic executor for the straight-line key-normalisation '
+           'fragments of __getitem__/__setitem__ (slice objects as triples, isinstance / `is None` decided '
+           'statically or turned into a match, `if`s that only assign joined into conditional values); '
+           'the index normalisation itself (key_get/key_set, neg_norm, chk, step test) is NO LONGER hand-modelled: '
+           'Gen/MatrixKeys.v is regenerated every run and proved equal to it (C19_gen_getitem_keys, '
+           'C19_gen_setitem_keys, C19_gen_single_int_key, C19_gen_getitem_block)']
 ASSUMPTIONS = ['signed=False (signed matrices are documented as unsupported)',
                'max_bits is an int >= 1 (max_bits=None is not modelled)',
                'Python-level argument validation (type errors) is only checked as "raises"',
